@@ -76,6 +76,21 @@ def generate(ctx):
         yield 'cadv', {'b': b, 'x': x, 'w': w, 'wshape': [K - 1, 2], 'axis': 0, 'bv': False}
         yield 'geo', {'b': b, 'T': util.small_rationals(rng, (K, 2, 2), 200, 300, 1).tolist(), 'R': 287.0}
         yield 'long_axis', {'b': b, 'x': x, 'T': util.small_rationals(rng, (K, 1, 2), 200, 300, 1).tolist(), 'R': 287.0}
+    # extremely thin layers next to thick ones (dyadic): any absolute epsilon added to a spacing or thickness shows
+    thin = [[0.0, 2.0 ** -30, 2.0 ** -29, 0.5, 0.5 + 2.0 ** -25, 1.0], [0.0, 0.25, 0.25 + 2.0 ** -34, 1.0],
+            [0.0, 1.0 - 2.0 ** -28, 1.0], [0.0, 2.0 ** -40, 1.0 - 2.0 ** -33, 1.0 - 2.0 ** -34, 1.0]]
+    for b in (thin if ctx.tier != 'quick' else thin[:3]):
+        K = len(b) - 1
+        ctx.count('thin-layer level set')
+        x = util.small_rationals(rng, (K, 2)).tolist(); w = util.small_rationals(rng, (K - 1, 2)).tolist()
+        yield 'accept', {'b': b}
+        yield 'derived', {'b': b}
+        yield 'cumint', {'b': b, 'x': x, 'axis': 0}
+        yield 'cumlog', {'b': b, 'x': x, 'axis': 0}
+        yield 'cdiff', {'b': b, 'x': x, 'axis': 0, 'a': 1.25, 'c': -0.5}
+        yield 'cadv', {'b': b, 'x': x, 'w': w, 'wshape': [K - 1, 2], 'axis': 0, 'bv': False}
+        yield 'upwind', {'b': b, 'x': x, 'w': w, 'wshape': [K - 1, 2], 'axis': 0}
+        yield 'geo', {'b': b, 'T': util.small_rationals(rng, (K, 2, 2), 200, 300, 1).tolist(), 'R': 287.0}
     # long vertical axes: size thresholds in the cumulative-sum strategies.  The exact-rational model is quadratic in K
     # (minutes at K = 1000), so these cases are decided by oracles: independent numpy references and strategy agreement.
     for K in ([130, 520, 1030] if ctx.tier == 'quick' else [70, 130, 260, 520, 1030, 2050]):
